@@ -42,6 +42,7 @@ type Pkg struct {
 	get *GetModel
 	// emission model of Vector (vocab.go / semit.go)
 	emitModel *EmitModel
+	pm        *parseModel
 }
 
 type World struct {
